@@ -213,7 +213,7 @@ def run_many(cases: list, timeout: float = 5.0, workers: int = None) -> list:
 
 def compile_case(isa, files: dict, main='main.asm', start=None, end=None, fill=None, pretty=None,
                  defines=(), include_dirs=(), isa_name='isa.yaml', extra_files=None, output='out.bin',
-                 presentinel=False, extra_argv=()) -> dict:
+                 presentinel=False, extra_argv=(), bare_main=False) -> dict:
     """Build a CLI case. `isa` is a dict (dumped as YAML or JSON by extension) or a str."""
     import yaml
     fs = dict(files)
@@ -225,7 +225,8 @@ def compile_case(isa, files: dict, main='main.asm', start=None, end=None, fill=N
         fs[isa_name] = yaml.safe_dump(isa, sort_keys=False)
     if extra_files:
         fs.update(extra_files)
-    argv = ['compile', '-c', '{W}/' + isa_name, '{W}/' + main, '-o', '{W}/' + output]
+    # bare_main: the source file is named without any directory part, its directory being the working directory
+    argv = ['compile', '-c', '{W}/' + isa_name, main if bare_main else '{W}/' + main, '-o', '{W}/' + output]
     if start is not None:
         argv += ['-s', str(start)]
     if end is not None:
@@ -241,4 +242,7 @@ def compile_case(isa, files: dict, main='main.asm', start=None, end=None, fill=N
     argv += list(extra_argv)
     if presentinel:
         fs[output] = 'SENTINEL'
-    return {'files': fs, 'argv': argv, 'collect': [output, 'pretty.txt']}
+    out = {'files': fs, 'argv': argv, 'collect': [output, 'pretty.txt']}
+    if bare_main:
+        out['cwd'] = '.'
+    return out
